@@ -4,8 +4,11 @@ horizontal list and a sequence of breakpoints into line boxes."""
 from mir2smt import term as tm
 from mir2smt.term import I
 from mir2smt.execmir import Agg, Enum, Ref, Cell, Opaque
+from mir2smt import models_iter  # noqa: F401
 
-RULE, GLUE, KERN, PENALTY = 3, 11, 12, 13  # ds::Horizontal discriminants (source order)
+RULE, DISCRETIONARY, GLUE, KERN, PENALTY = 3, 8, 11, 12, 13  # ds::Horizontal discriminants (source order)
+# discretionary kinds: (pre-break rules, post-break rules, replace_count)
+DISC = {"D": (1, 1, 1), "d": (1, 0, 0), "e": (0, 0, 0), "E": (0, 1, 2)}
 V_HBOX, V_GLUE, V_PENALTY = 0, 7, 9        # ds::Vertical discriminants
 KP = ["boxworks-knuthplass", "common", "boxworks"]
 
@@ -43,6 +46,10 @@ def build(kinds, breaks, n_widths, n_indents):
                 vals.append(Enum(I(KERN), {KERN: [Agg([scaled(iv(f"w{i}", -W, W)), Enum(I(1 if c == "K" else 0), {}, "KernKind")])]}, "Horizontal"))
             elif c == "P":
                 vals.append(Enum(I(PENALTY), {PENALTY: [Agg([iv(f"p{i}", -10000, 10000)])]}, "Horizontal"))
+            elif c in DISC:
+                npre, npost, nrep = DISC[c]
+                mk = lambda nm: Enum(I(3), {3: [Agg([scaled(iv(f"{nm}h{i}", 0, W)), scaled(iv(f"{nm}w{i}", 0, W)), scaled(iv(f"{nm}d{i}", 0, W))])]}, "DiscretionaryElem")
+                vals.append(Enum(I(DISCRETIONARY), {DISCRETIONARY: [Agg([Agg([mk(f"pre{j}_") for j in range(npre)]), Agg([mk(f"post{j}_") for j in range(npost)]), I(nrep)])]}, "Horizontal"))
             else:
                 raise ValueError(c)
         pen = {k: iv(k, -10000, 10000) for k in ("inter_line_penalty", "club_penalty", "final_widow_penalty", "broken_penalty")}
@@ -101,6 +108,7 @@ def post(a, ret, st):
         v_list = v_list.cell.v
     conj = []
     start = 0
+    pending_post = []
     vi = 0  # cursor in v_list
     for li, bp in enumerate(breaks):
         lst, pw = packs[li][1], packs[li][2]
@@ -109,11 +117,18 @@ def post(a, ret, st):
         ls_zero = tm.and_(*[tm.eq(x, I(0)) for x in a["ls"]])
         # the function forks on is_zero(): on this path the list either starts with the left skip or not
         # expected body: items[start..bp] + residue of the break item
-        body = items[start:bp]
+        body = list(pending_post) + items[start:bp]
+        pending_post = []
         residue = []
+        broken = False
         if bp < n:
             c = kinds[bp]
-            if c == "P":
+            if c in DISC:
+                disc = items[bp].pay[DISCRETIONARY][0]
+                residue = [("empty_disc", None)] + [("elem", e) for e in disc.fields[0].fields]
+                pending_post = [("elem", e) for e in disc.fields[1].fields]
+                broken = True
+            elif c == "P":
                 residue = [("same", items[bp])]
             elif c in "Kk":
                 residue = [("kern0", items[bp])]
@@ -133,13 +148,24 @@ def post(a, ret, st):
             conj.append(ls_zero)
         else:
             return tm.FALSE  # material lost, duplicated, or a line that begins with discardable items it should have dropped
+        def same_elem(g, e):
+            """g: Horizontal in the line; e: the DiscretionaryElem it came from (rules only in these lists)."""
+            if not _is(g, RULE):
+                return tm.FALSE
+            return _same(g.pay[RULE][0], e.pay[3][0])
         for x, y in zip(got, body):
-            conj.append(_same(x, y))
+            conj.append(same_elem(x, y[1]) if isinstance(y, tuple) else _same(x, y))
         k = len(body)
         for kind, it in residue:
             g = got[k]
             if kind == "same":
                 conj.append(_same(g, it))
+            elif kind == "elem":
+                conj.append(same_elem(g, it))
+            elif kind == "empty_disc":
+                if not (_is(g, DISCRETIONARY) and len(g.pay[DISCRETIONARY][0].fields[0].fields) == 0 and len(g.pay[DISCRETIONARY][0].fields[1].fields) == 0):
+                    return tm.FALSE
+                conj.append(tm.eq(g.pay[DISCRETIONARY][0].fields[2], I(0)))
             else:
                 if not _is(g, KERN):
                     return tm.FALSE
@@ -174,6 +200,8 @@ def post(a, ret, st):
                 p = tm.add(p, a["pen"]["club_penalty"])
             if li + 2 == len(breaks):
                 p = tm.add(p, a["pen"]["final_widow_penalty"])
+            if broken:
+                p = tm.add(p, a["pen"]["broken_penalty"])
             if vi < len(v_list.fields) and _is(v_list.fields[vi], V_PENALTY):
                 conj.append(tm.not_(tm.eq(p, I(0))))
                 conj.append(tm.eq(v_list.fields[vi].pay[V_PENALTY][0].fields[0], p))
@@ -183,8 +211,11 @@ def post(a, ret, st):
         # --- next line starts after the break item and the discardable items that follow it, up to the next break
         start = bp + 1
         nxt = breaks[li + 1] if li + 1 < len(breaks) else n
-        while start < nxt and discardable(kinds[start]):
-            start += 1
+        if bp < n and kinds[bp] in DISC:
+            start += DISC[kinds[bp]][2]            # the replaced items go (TeX.2021.882)
+        if not pending_post:                        # TeX.2021.879: not after post-break material
+            while start < nxt and discardable(kinds[start]):
+                start += 1
     if vi != len(v_list.fields):
         return tm.FALSE
     return tm.and_(*conj)
@@ -346,8 +377,15 @@ def legal_breaks(kinds):
             out.append(i)
         elif c == "K" and i + 1 < len(kinds) and kinds[i + 1] == "G":
             out.append(i)
-        elif c == "P":
+        elif c == "P" or c in DISC:
             out.append(i)
+    return out
+
+
+def disc_family():
+    out = []
+    for kinds, breaks in [("RDRR", (1, 4)), ("RdRR", (1, 4)), ("ReGR", (1, 4)), ("RdGR", (1, 4)), ("RERRR", (1, 5)), ("RDRGR", (1, 3, 5)), ("RGRDRR", (1, 3, 6)), ("RDRR", (4,)), ("RdPR", (1, 4)), ("RdR", (1, 3))]:
+        out.append(ob(kinds, breaks))
     return out
 
 
@@ -367,7 +405,7 @@ def family(n_items, tier):
 HAND = [ob("RGR", (3,)), ob("RGRGR", (1, 3, 5), n_widths=1, n_indents=0)]
 _seen = set()
 OBLIGATIONS = []
-for _o in [SPACE, ADJUST] + HAND + family(3, "quick") + family(4, "quick") + family(5, "quick") + family(6, "thorough"):
+for _o in [SPACE, ADJUST] + HAND + disc_family() + family(3, "quick") + family(4, "quick") + family(5, "quick") + family(6, "thorough"):
     if _o["name"] not in _seen:
         _seen.add(_o["name"])
         OBLIGATIONS.append(_o)
@@ -377,11 +415,11 @@ PROP = {
     "level_text": ("Decided: (1) the inter-word glue kernels of the text preprocessor - add_space = TeX.2021.1041-1044 for every space factor and glue, SpaceFactor::adjust = TeX.2021.1034; (2) LineBreaker::post_line_break at driver level: for lists of a fixed shape and fixed breakpoints, with every amount and parameter symbolic, the packed lines contain exactly "
                    "the list items between the breaks (break glue dropped, break kern zeroed, break penalty kept, the discardable items after a break dropped), left skip iff non-zero, right skip always, "
                    "each line is packed to exactly its line width and shifted by its indent, and the inter-line penalties follow TeX.2021.890. "
-                   "NOT decided: add_word (characters, ligatures, kerns: font and string bound), discretionary breaks, the baseline-skip glue amounts, HBox::pack itself (C15), the breaker (C04)."),
+                   "Breaks at discretionaries (pre-break material and an empty discretionary end the line, post-break material starts the next one, the replaced items vanish, broken_penalty is added) are decided on 10 hand-picked shapes. NOT decided: add_word (characters, ligatures, kerns: font and string bound), the baseline-skip glue amounts, HBox::pack itself (C15), the breaker (C04)."),
     "explanation": "post_line_break is executed from its generic MIR with HBox::pack replaced by a recording stub; the post-condition is the content/geometry part of the property over the recorded pack calls and the resulting vertical list.",
     "outside": [
         "TextPreprocessor::add_text / add_word (characters, ligatures, kerns, '-' discretionaries; that the list spells the words): string/font bound, NOT decided",
-        "discretionary breaks (pre/post-break material, replace_count, broken_penalty), math nodes",
+        "discretionary material other than rules (characters, ligatures, boxes, kerns), math nodes; discretionary breaks beyond the 10 listed shapes",
         "the amounts of the baseline-skip glue between lines (the code carries TODOs there); only its presence is checked",
         "lists longer than 5 items / more than 3 lines",
     ],
